@@ -20,6 +20,20 @@ class Failpoint:
         self.n = 0
         self.k = None
         self.where = None
+        # lines inside 'finally:' blocks are never fault sites: clean-up code there consists of plain assignments that cannot raise in a real
+        # execution - injecting there would manufacture failures the program cannot have
+        self.cleanup = set()
+        import ast, glob
+        for fn in glob.glob(os.path.join(self.prefix, '*.py')):
+            try:
+                tree = ast.parse(open(fn).read())
+            except Exception:
+                continue
+            for node in ast.walk(tree):
+                if isinstance(node, ast.Try) and node.finalbody:
+                    lo = node.finalbody[0].lineno; hi = max(getattr(n_, 'end_lineno', n_.lineno) for n_ in node.finalbody)
+                    for ln in range(lo, hi + 1):
+                        self.cleanup.add((os.path.basename(fn), ln))
 
     @property
     def available(self):
@@ -29,6 +43,8 @@ class Failpoint:
         fn = code.co_filename
         if not (fn.startswith(self.prefix) or os.path.realpath(fn).startswith(self.prefix)):
             return sys.monitoring.DISABLE
+        if (os.path.basename(fn), line) in self.cleanup:
+            return None
         self.n += 1
         if self.k is not None and self.n == self.k:
             self.where = '%s:%d' % (os.path.basename(fn), line)
